@@ -285,6 +285,7 @@ func (c *checker) run(sch schema.Type, inputs []any, what string) {
 	// native path: accepted values, plus each with one key removed / one undeclared key added
 	seen := map[string]bool{}
 	var cands []any
+	repairs := map[int]func() string{} // candidate index -> puts the removed key back into that very map
 	for _, n := range natives {
 		cands = append(cands, n)
 		if m, ok := n.(map[string]any); ok {
@@ -295,6 +296,9 @@ func (c *checker) run(sch schema.Type, inputs []any, what string) {
 						d[kk] = vv
 					}
 				}
+				k, v := k, m[k]
+				whole := ukit.Snapshot(n)
+				repairs[len(cands)] = func() string { d[k] = v; return whole }
 				cands = append(cands, d)
 			}
 			e := map[string]any{"undeclared": "x"}
@@ -328,6 +332,22 @@ func (c *checker) run(sch schema.Type, inputs []any, what string) {
 				c.fail(what+": Serialize disagrees with the declared rules on a native value", fmt.Sprintf("Serialize(%s) -> %v; reference says %s", ukit.Show(nv), err, want), "Serialize", i, nv)
 			}
 		})
+		if repair := repairs[i]; repair != nil && want == ukit.No {
+			// the caller repairs the rejected value (puts the missing key back into the same map) and tries again: it is
+			// now the value Unserialize returned, which the rules accept
+			c.res.Evaluations++
+			c.guard("Validate", i, nv, func() {
+				if whole := repair(); ukit.Snapshot(nv) != whole {
+					c.fail(what+": a rejected Validate / Serialize changed the value it was given", fmt.Sprintf("the key removed from %s was put back after the rejected calls; the map is now %s", whole, ukit.Show(nv)), "Validate", i, nv)
+					return
+				}
+				if err := sch.Validate(nv); err != nil {
+					c.fail(what+": Validate rejects a repaired native value that the declared rules accept", fmt.Sprintf("after a rejected Validate / Serialize the missing key was put back: Validate(%s) -> %v", ukit.Show(nv), err), "Validate", i, nv)
+				} else if _, err := sch.Serialize(nv); err != nil {
+					c.fail(what+": Serialize rejects a repaired native value that the declared rules accept", fmt.Sprintf("after a rejected Validate / Serialize the missing key was put back: Serialize(%s) -> %v", ukit.Show(nv), err), "Serialize", i, nv)
+				}
+			})
+		}
 	}
 }
 
